@@ -1022,6 +1022,12 @@ impl<'a, 'b, W: Write> Serializer for &'a mut YamlSerializer<'b, W> {
                 }
             }
         }
+        if self.in_flow > 0 {
+            // Block scalars cannot appear inside a flow collection: an explicit block-string
+            // wrapper falls back to the ordinary (plain or quoted) form there.
+            self.pending_str_style = None;
+            self.pending_str_from_auto = false;
+        }
         if let Some(style) = self.pending_str_style.take() {
             // Emit block string. If we are a mapping value, YAML requires a space after ':'.
             // Insert it now if pending.
